@@ -294,3 +294,15 @@ func (e *StreamEnv) Reinit() error {
 func (e *StreamEnv) Cleanup() {
 	_ = os.RemoveAll(filepath.Dir(e.FlowsDir))
 }
+
+// NewStreamEnvFromDirs loads the configuration already written under filepath.Dir(flowsDir).
+func NewStreamEnvFromDirs(root, flowsDir string) (*StreamEnv, error) {
+	e := &StreamEnv{
+		Root: root, FlowsDir: flowsDir, QuotasDir: filepath.Join(filepath.Dir(flowsDir), "quotas"),
+		Shared: lunarcontext.NewMemoryState[[]byte](),
+	}
+	if err := e.Reinit(); err != nil {
+		return nil, err
+	}
+	return e, nil
+}
